@@ -400,6 +400,102 @@ theorem runAll_eq_stepAll (fixed : Bool) (h : List (FileView Text)) :
         exact hn t' (by simp [ht']) c
 end
 
+section
+variable {Text : Type} [DecidableEq Text] (parse : Text → Option (ConfigTag × Option Rate))
+
+/-! ### the thread: repeated polls of an unchanged file, and the poll history it shows -/
+
+theorem runOnce_idem (fixed : Bool) (st : RState Text) (fv : FileView Text) :
+    (runOnce parse fixed (runOnce parse fixed st fv).1 fv).1 = (runOnce parse fixed st fv).1 ∧
+    (runOnce parse fixed (runOnce parse fixed st fv).1 fv).2 ≠ .applied := by
+  rcases st with ⟨modified, source, active, rate, alive⟩
+  cases fv with
+  | missing => cases modified <;> simp [runOnce, readAndApply, FileView.mtime?, FileView.text?]
+  | unreadable m =>
+    cases modified with
+    | none => simp [runOnce, readAndApply, FileView.mtime?, FileView.text?]
+    | some l =>
+      by_cases hlm : l = m <;> cases fixed <;>
+        simp [runOnce, readAndApply, FileView.mtime?, FileView.text?, hlm]
+  | ok m t =>
+    have hparse : parse t = none ∨ ∃ c r, parse t = some (c, r) := by
+      cases parse t with
+      | none => left; rfl
+      | some p => right; exact ⟨p.1, p.2, rfl⟩
+    cases modified with
+    | none =>
+      by_cases hts : t = source <;> rcases hparse with hp | ⟨c, r, hp⟩ <;>
+        simp [runOnce, readAndApply, FileView.mtime?, FileView.text?, hts, hp]
+    | some l =>
+      by_cases hlm : l = m <;> by_cases hts : t = source <;> rcases hparse with hp | ⟨c, r, hp⟩ <;> cases fixed <;>
+        simp [runOnce, readAndApply, FileView.mtime?, FileView.text?, hts, hp, hlm]
+
+theorem poll_idem (fixed : Bool) (st : RState Text) (fv : FileView Text) :
+    (poll parse fixed (poll parse fixed st fv).1 fv).1 = (poll parse fixed st fv).1 ∧
+    (poll parse fixed (poll parse fixed st fv).1 fv).2 ≠ .applied := by
+  by_cases ha : st.alive = true
+  · have h1 : poll parse fixed st fv = runOnce parse fixed st fv := by simp [poll, ha]
+    rw [h1]
+    by_cases ha2 : (runOnce parse fixed st fv).1.alive = true
+    · have h2 : poll parse fixed (runOnce parse fixed st fv).1 fv = runOnce parse fixed (runOnce parse fixed st fv).1 fv := by
+        simp [poll, ha2]
+      rw [h2]; exact runOnce_idem parse fixed st fv
+    · simp [poll, ha2]
+  · simp [poll, ha]
+
+theorem pollMany_eq (fixed : Bool) (fv : FileView Text) (n : Nat) :
+    ∀ st : RState Text, pollMany parse fixed st fv n = (poll parse fixed st fv).1 := by
+  induction n with
+  | zero => intro st; rfl
+  | succ k ih =>
+    intro st
+    simp only [pollMany]
+    rw [ih, (poll_idem parse fixed st fv).1]
+
+
+def tobsOf (p : Action × RState Text) : TObs :=
+  { active := p.2.active, touched := p.1 == .applied, alive := p.2.alive, polled := true }
+
+/-- every refresh rate a file can ask for is an ordinary (fast) one -/
+def FastRates : Prop := ∀ t c r, parse t = some (c, some r) → r < slowRate
+
+theorem applyText_rate_fast (hf : FastRates parse) (st : RState Text) (t : Text) (h : st.rate < slowRate) :
+    (applyText parse st t).rate < slowRate := by
+  unfold applyText
+  split
+  · exact h
+  · cases hp : parse t with
+    | none => exact h
+    | some p =>
+      obtain ⟨c, r⟩ := p
+      cases r with
+      | none => exact h
+      | some x => exact hf t c x hp
+
+theorem poll_rate_fast (hf : FastRates parse) (fixed : Bool) (st : RState Text) (fv : FileView Text)
+    (h : st.rate < slowRate) : (poll parse fixed st fv).1.rate < slowRate := by
+  unfold poll
+  split
+  · rw [runOnce_fst]
+    cases readsOne st.modified fv with
+    | none => exact h
+    | some t => exact applyText_rate_fast parse hf _ t h
+  · exact h
+
+/-- with ordinary rates only, what the thread shows after each edit is what the poll history shows -/
+theorem threadRun_fast (hf : FastRates parse) (fixed : Bool) (views : List (FileView Text)) :
+    ∀ (st : RState Text) (cur : FileView Text), st.rate < slowRate →
+      threadRun parse fixed st cur (views.map .edit) = (pollAll parse fixed st views).map tobsOf := by
+  induction views with
+  | nil => intro st cur _; rfl
+  | cons fv rest ih =>
+    intro st cur h
+    simp only [List.map_cons, threadRun, pollAll, h, decide_true, if_true]
+    rw [ih _ fv (poll_rate_fast parse hf fixed st fv h)]
+    rfl
+
+end
+
 /-! ### witnesses used by Properties/C15.lean -/
 
 def wA : Doc := { kind := .good, tag := 1, rate := some 30, nonce := 0 }
